@@ -69,6 +69,11 @@ let () =
       let l = reg_op_requests o (plain = "1") (unh hr) (unh hl) (unh hn) in
       Printf.printf "%s REQS%s\n" id
         (String.concat "" (List.map (fun (m, u) -> " " ^ hex_of_str m ^ ":" ^ hex_of_str u) l))
+    | id :: "T" :: plain :: hr :: hp :: hs :: hserved :: hdsts ->
+      let unh h = if h = "-" then [] else str_of_hex h in
+      let l = oras_tag_requests avail go_vr (plain = "1") (unh hr) (unh hp) (unh hs) (List.map unh hdsts) (unh hserved) in
+      Printf.printf "%s REQS%s\n" id
+        (String.concat "" (List.map (fun (m, u) -> " " ^ hex_of_str m ^ ":" ^ hex_of_str u) l))
     | [id; "G"; h] ->
       let reg = if h = "-" then [] else str_of_hex h in
       (match go_registry_verdict reg with
